@@ -131,7 +131,15 @@ Definition live_after (s : O.st) (lv : list nat) (e : O.ev) : list nat :=
                   else lv
       | None => lv
       end
-  | O.ECancel id _ => remove_nat id lv
+  | O.ECancel id _ =>
+      (* cleanUp deletes BY TOKEN: whoever holds the key of registration id's token leaves the table *)
+      match nth_error (O.regs s) id with
+      | Some tok => match O.tget (O.crc64 tok) (O.tbl s) with
+                    | Some o => remove_nat (O.o_id o) lv
+                    | None => lv
+                    end
+      | None => lv
+      end
   end.
 
 Definition ostep (s : conn) (e : O.ev) : conn :=
